@@ -42,6 +42,9 @@ def leaves(enc):
             elif "__d" in e:
                 for x in e["__d"].values():
                     rec(x)
+            elif "__m" in e:
+                for x in e["__m"].values():
+                    rec(x)
             else:
                 raise ValueError(f"bad encoded container {e!r}")
         else:
